@@ -23,6 +23,8 @@ ADDS = {
     "both": ("collections.Counter", "vp_sink.hit"),
     "newmod2": ("vp_objs.Plain", "vp_objs.Slotted"),  # two names in one module that the built-in list does not have
     "dotted-module": ("collections.abc.Mapping",),  # module with a dot: only the last component is the name
+    # a new member of a module that the built-in list has and whose name contains dots
+    "dotted-listed": ("numpy.core.multiarray.vp_extra", "torch._utils._rebuild_qtensor"),
 }
 # "probe": loads of every probe global through the pickle module, refused ones included, as part of the history (a load
 # that fails half-way is where per-load bookkeeping goes wrong)
